@@ -17,3 +17,13 @@ pub fn apply(l: &Z, r: RhsRef<'_>, op: BinOp, form: Form) -> Z {
         })),
     }
 }
+
+/// `&a op &a` with BOTH operands being the very same object (aliased references).
+pub fn apply_self(l: &Z, op: BinOp) -> Z {
+    z_match!(l, a => match op {
+        BinOp::And => (a & a).wrap(),
+        BinOp::Or => (a | a).wrap(),
+        BinOp::Xor => (a ^ a).wrap(),
+        _ => unreachable!("wrong table"),
+    })
+}
